@@ -495,15 +495,52 @@ SHARED_CHAINS = [
      "type D { required property x -> str; } type C extending B, D; type G extending C; }"],
 ]
 
+#: deterministic chains with CROSS-MODULE renames (a type with nested refs - annotated pointers, a link with a link
+#: property, a child type - moved to another module; a whole module renamed, incl. abstract links / properties,
+#: overloads, constraints, indexes), each followed by follow-up steps on the moved objects (make a pointer optional,
+#: drop it, drop the type): names of all nested objects must follow the move, and later migrations must still work.
+XMODULE_CHAINS = [
+    ["module default { type T; type A { required property x -> str { annotation title := 'the x'; } link l -> T { property w -> int64; } annotation title := 'a'; } type C extending A; } module other { }",
+     "module default { type T; type C extending other::A; } module other { type A { required property x -> str { annotation title := 'the x'; } link l -> default::T { property w -> int64; } annotation title := 'a'; } }",
+     "module default { type T; type C extending other::A; } module other { type A { property x -> str { annotation title := 'the x'; } link l -> default::T { property w -> int64; } annotation title := 'a'; } }",
+     "module default { type T; type C extending other::A; } module other { type A { link l -> default::T { property w -> int64; } annotation title := 'a'; } }",
+     'module default { type T; } module other { }'],
+    ["module default { type T; } module m1 { abstract link al { property w -> int64; annotation title := 'al'; } abstract property ap { annotation title := 'ap'; } type A { required property x extending ap -> str; multi link l extending al -> default::T; constraint exclusive on (.x); index on (.x); } type B extending A { overloaded required property x extending ap -> str { annotation title := 'bx'; } } }",
+     "module default { type T; } module m2 { abstract link al { property w -> int64; annotation title := 'al'; } abstract property ap { annotation title := 'ap'; } type A { required property x extending ap -> str; multi link l extending al -> default::T; constraint exclusive on (.x); index on (.x); } type B extending A { overloaded required property x extending ap -> str { annotation title := 'bx'; } } }",
+     "module default { type T; } module m2 { abstract link al { property w -> int64; annotation title := 'al'; } abstract property ap { annotation title := 'ap'; } type A { property x extending ap -> str; multi link l extending al -> default::T; index on (.x); } type B extending A { overloaded property x extending ap -> str { annotation title := 'bx'; } } }",
+     "module default { type T; } module m2 { abstract link al { property w -> int64; annotation title := 'al'; } abstract property ap { annotation title := 'ap'; } type A { multi link l extending al -> default::T; } type B extending A; }"],
+]
+
+#: deterministic chains "a subtype OWNS an overload of an inherited pointer, then is re-parented so that no remaining
+#: base defines the pointer" (property and link, with a grandchild), followed by alters / a rename of the ex-parent's
+#: pointer; the final migration to the empty schema is part of every C10 chain.
+REPARENT_CHAINS = [
+    ['module default { type A { property x -> str; } type P { property p -> str; } type B extending A { overloaded required property x -> str; } type C extending B; }',
+     'module default { type A { property x -> str; } type P { property p -> str; } type B extending P { required property x -> str; } type C extending B; }',
+     'module default { type A { property x -> str { readonly := true; } } type P { property p -> str; } type B extending P { required property x -> str; } type C extending B; }',
+     'module default { type A { property y -> str { readonly := true; } } type P { property p -> str; } type B extending P { required property x -> str; } type C extending B; }'],
+    ["module default { type T; type A { link l -> T; } type P; type B extending A { overloaded required link l -> T { property w -> int64; annotation title := 'bl'; } } type C extending B { overloaded required link l -> T; } }",
+     "module default { type T; type A { link l -> T; } type P; type B extending P { required link l -> T { property w -> int64; annotation title := 'bl'; } } type C extending B { overloaded required link l -> T; } }",
+     "module default { type T; type A { multi link l -> T; } type P; type B extending P { required link l -> T { property w -> int64; annotation title := 'bl'; } } type C extending B { overloaded required link l -> T; } }"],
+]
+
+#: every deterministic chain (always run first, never cut by the time guard)
+REGRESSION_CHAINS = {'shared': SHARED_CHAINS, 'xmodule': XMODULE_CHAINS, 'reparent': REPARENT_CHAINS}
+
 
 def run_shared(ctx: core.Ctx, eng: Engine) -> dict:
+    """the deterministic regression chains as consecutive pairs: direct apply of the computed migration and the stored
+    script replayed as TEXT are both compared with the target (name sets + every field)"""
     out = {}
-    for ch in SHARED_CHAINS:
-        for sa, sb in zip(ch, ch[1:]):
-            rec = check_pair(ctx, eng, sa, sb, ['shared-chain-step'], extra_text_route=True, stream='shared',
-                             all_routes=True)
-            out[rec['outcome']] = out.get(rec['outcome'], 0) + 1
-    ctx.log('shared-pointer pairs:', out)
+    for group, chains in REGRESSION_CHAINS.items():
+        res = {}
+        for ch in chains:
+            for sa, sb in zip(ch, ch[1:]):
+                rec = check_pair(ctx, eng, sa, sb, [group + '-chain-step'], extra_text_route=(group == 'shared'),
+                                 stream=group, all_routes=True)
+                res[rec['outcome']] = res.get(rec['outcome'], 0) + 1
+        out[group] = res
+    ctx.log('deterministic regression pairs:', out)
     return out
 
 
@@ -525,8 +562,17 @@ def gen_pair(rng, sc):
         if tags:
             b, t2 = sc.mutate(rng, b, rng.choice([0, 0, 1]))
             return a, b, list(tags) + list(t2)
+    if k < 0.40:
+        # cross-module renames (move a type / another object to another module, rename a module) and re-parenting
+        # of a type that owns an overload to bases that do not define the pointer
+        a = sc.gen_spec(rng, size, features=set(sc.DEFAULT_FEATURES) | {'modules', 'overloaded', 'inherit'})
+        kinds = ['move_type', 'rename_module', 'move_other'] if rng.random() < 0.5 else ['reparent_overload_away']
+        b, tags = sc.mutate(rng, a, 1, kinds=kinds)
+        if tags:
+            b, t2 = sc.mutate(rng, b, rng.choice([0, 0, 1]))
+            return a, b, list(tags) + list(t2)
     a = sc.gen_spec(rng, size)
-    if k < 0.42:
+    if k < 0.48:
         # rebases inside rich schemas: multi-group inserts / adjacent drops, possibly followed by other mutations
         b, tags = sc.mutate(rng, a, 1, kinds=['rebase_multi', 'drop_adjacent_bases'])
         if tags:
@@ -548,7 +594,12 @@ def run_corpus(ctx: core.Ctx, eng: Engine) -> dict:
     res = {}
     if not os.path.exists(path):
         return res
-    for case in json.load(open(path))['cases']:
+    cases = json.load(open(path))['cases']
+    if ctx.quick():
+        # quick: half of the witnesses per run, alternating with the seed (the deterministic regression chains and the
+        # rebase streams always run in full; thorough replays every witness)
+        cases = [c for i, c in enumerate(cases) if i % 2 == ctx.seed % 2]
+    for case in cases:
         if 'ddl' in case:
             rec = check_ddl_case(ctx, eng, case['ddl'], case['plan'], 'corpus', fixed_key=case['key'])
         else:
@@ -571,13 +622,13 @@ def run_level2(ctx: core.Ctx, n_pairs: int, deadline_s: float | None = None) -> 
     feats: dict = {}
     distinct = set()
     samples = []
-    corpus = run_corpus(ctx, eng)
     shared = run_shared(ctx, eng)
-    rebase = run_rebase(ctx, eng, ctx.budget(8, 300), ctx.budget(8, 300))
-    deadline = time.time() + (deadline_s if deadline_s is not None else ctx.budget(85, 1500))   # wall-clock guard
+    corpus = run_corpus(ctx, eng)
+    rebase = run_rebase(ctx, eng, ctx.budget(6, 300), ctx.budget(6, 300))
+    deadline = time.time() + (deadline_s if deadline_s is not None else ctx.budget(50, 1500))   # wall-clock guard
     done = 0
     for i in range(n_pairs):
-        if time.time() > deadline and done >= ctx.budget(15, 300):
+        if time.time() > deadline and done >= ctx.budget(10, 300):
             ctx.notes.append(f'level 2 stopped after {done} of {n_pairs} pairs (time budget)')
             break
         done += 1
